@@ -236,6 +236,7 @@ class MCSRules(LockModel):
             getattr(self, 'role_' + role[0])(fn, role[1], paths)
         self.who_may_call()
         self.check_spins()
+        self.lock_type_rule()
         self.check_tls()
 
     # ------------------------------------------------------------------ acquire
@@ -917,6 +918,8 @@ class MCSRules(LockModel):
                 for p in f.get('_feasible_paths', []):
                     for e in p.events:
                         if e['kind'] == 'call' and e.get('callee') == rel:
+                            if f.get('record') == grec and f['kind'] == 'method' and not f.get('move_assign'):
+                                continue      # another member of the same guard class (an early Unlock()): its bookkeeping is C07.MEMBER
                             okf = f.get('record') == grec and (f['kind'] == 'dtor' or f.get('move_assign'))
                             key = '%s called from %s' % (short(self.facts.functions[rel]['name']), short(f['name']))
                             self.sink.emit('C07.WHO', 'ok' if okf else 'violated', key, '%s:%s' % (f['file'], e['line']),
@@ -971,6 +974,11 @@ class MCSRules(LockModel):
                 okf = self.eng.is_spin_function(f)
                 self.sink.emit('C02.SPINFN', 'ok' if okf else 'violated', 'SpinWithBackoff instance @%s' % k.split('lambda at ')[-1].split(')')[0].split('/')[-1],
                                '%s:%s' % (f['file'], f['line']), self.eng.spin_reason(f))
+                if okf:
+                    rk, rd = self.eng.spin_rounds(f)
+                    self.sink.emit('C02.SPINFN', 'ok' if rk else ('violated' if rk is False else 'unsupported'),
+                                   'SpinWithBackoff instance @%s calls its procedure in every round' % k.split('lambda at ')[-1].split(')')[0].split('/')[-1],
+                                   '%s:%s' % (f['file'], f['line']), rd)
 
     def loops(self, fn):
         """(header, blocks of the natural loop) for each back edge"""
